@@ -209,6 +209,54 @@ def assumptions(pid):
 NOT_APPLICABLE = {}
 
 MANIFEST_TEXT = {
+    'C01': dict(
+        text='Proof by encapsulation: every function of the boot-information parse path that contains `unsafe` (ref_from_bytes/slice/ptr, cast, MaybeDynSized::{header,payload,as_bytes,as_ptr}, TagIter::next, BootInformation::load/has_valid_end_tag/tags, EFIMemoryAreaIter::{new,next}, EFIMemoryMapTag::memory_areas, ElfSectionsTag::sections, ElfSectionIter::next, ElfSection::get, FramebufferTag::buffer_type + Reader) is verified by Verus on its verbatim body for all inputs: each raw-pointer primitive carries an in-allocation + alignment precondition, each handed-out reference/slice is proved to lie inside the tag it was derived from, panic sites are only reachable where the contract allows a controlled panic, loops have decreases measures. Memory safety of every sequence of safe calls then follows from the Rust type system. Kani proves the per-kind decoders, RSDP checksum extents and layout facts on the compiled code.',
+        note='Trusted: pointer-extent prelude; allocation-level provenance (Stacked/Tree Borrows not modelled); references are identified with their values in the spec logic (two distinct objects with equal contents are conflated); field-projection layout facts (efi_tag_wf / elf_tag_wf / fb_tag_wf, DynSizedStructure::{header,payload}) are assumed in V and checked by Kani where Kani can compile the type (not ElfSectionsTag: Kani ICE). Debug formatters are safe compositions of these functions (not run under a verifier). ELF section names read an external address (excluded by the statement). Known finding: VBEModeInfo.memory_model enum-typed field.',
+    ),
+    'C04': dict(
+        text='Proof on compiled code: for every fixed-size tag kind a loop-free Kani harness over ALL bytes of the tag (type/size words fixed to the specification values) obtains the typed view through the real ref_from_slice + cast and proves every accessor equal to the little-endian value at the specified offset and width (including all VBE control/mode fields over 784 symbolic bytes, MemoryArea entries, RSDP fields and checksum validity); the framebuffer type byte classification is proved for all 256 values in V and K. First-match selection and variable-length kinds are bounded harnesses (labelled).',
+        note='Oracle = Multiboot2 specification offsets written independently in the harnesses. Kani checks dev-profile semantics; invalid enum reads are not visible to Kani (see C08 O2). get_tag uses Iterator::find (outside Verus): first-match is bounded (region <= 64 bytes).',
+    ),
+    'C05': dict(
+        text='Proof: Verus verifies the verbatim dst_len of all 9 dynamically sized boot-information tag kinds, of DynSizedStructure and of InformationRequestHeaderTag against per-kind contracts whose fixed offset and element size are literals from the specification: on normal return size >= fixed part, (size - fixed) % element == 0 and the count is (size - fixed) / element; the BASE_SIZE constants are proved equal to the specified fixed offsets. That the exposed slice starts at the fixed offset of the compiled layout is checked by bounded Kani harnesses per kind.',
+        note='Trusted: rustc places the DST tail at the declared fixed offset (checked by Kani harnesses except for ElfSectionsTag, Kani ICE).',
+    ),
+    'C06': dict(
+        text='Proof: Verus verifies the verbatim multiboot2::Builder: each of the 22 setters against a full-frame postcondition (named slot = supplied tag, every other field unchanged; repeatable kinds appended in call order; add_custom_tag rejects non-custom types), and build() against: 8-aligned result, declared total size = exact byte length, payload = concatenation of the byte images of exactly the supplied tags in the documented order (loop invariants for modules / SMBIOS / custom tags), followed by an end tag (type 0, size 8) as the final 8 bytes. A dropped, duplicated or reordered push fails a named step assertion. Kani cannot compile this type (ICE on ElfSectionsTag), so there is no compiled-code cross-check.',
+        note='Assumes the contract of new_boxed (C16, checked by Kani for bounded inputs) and that references to tags held by the builder are well-formed (type-system guarantee, axiom_safe_ref_wf); VBEInfoTag is an opaque stub; the lemma that the built bytes satisfy the load acceptance condition is by inspection of the two contracts (C02 postcondition vs. this postcondition), not mechanised.',
+    ),
+    'C07': dict(
+        text='Proof on compiled code: for every fixed-size tag constructor of both crates a loop-free Kani harness with ALL arguments symbolic proves type == specified number == Tag::ID, size == specified unpadded size, bytes [0,size) == specified little-endian encoding, accessors read the arguments back, alignment 8 and as_bytes() usable in arrays. Variable-length constructors: bounded content lengths (every padding residue), labelled.',
+        note='Oracle = specification table written independently in the harnesses. DST constructors rely on new_boxed (C16).',
+    ),
+    'C08': dict(
+        text='Sufficient condition, each part a machine-checked obligation on the real code: O1 overflow freedom of the whole load / walk / decode path (all Verus obligations of C01-C05, C09, C10, C14, C15, C18, C19 include native overflow checks; plus arithmetic accessors verbatim in total mode); O2 bit validity: for every enum-typed field of every repr(C) struct the generated lemma `every bit pattern is a variant` (a failing lemma = reading such bytes is undefined behaviour, where optimised builds diverge); O3 the extracted parse-path text contains no cfg(feature) / debug_assert, so the same text runs in all four builds. Violations recorded as known findings: two unchecked arithmetic accessors and six enum-typed fields.',
+        note='This is a sufficient condition, not a relational proof of the four compilations: neither verifier models release (wrapping) arithmetic. Kani checks dev semantics only.',
+    ),
+    'C09': dict(
+        text='Proof by encapsulation as C01 for the header crate: Multiboot2Header::load (total), iter, HeaderTagHeader / Multiboot2BasicHeader payload_len, and the generic multiboot2-common units instantiated through the Header trait contract, verified by Verus for all lengths, tag sizes and contents.',
+        note='Enumerated fields are assumed to hold defined values (the statement`s precondition); see C08 O2 for what happens otherwise. Typed getters use Iterator::find: bounded Kani harnesses.',
+    ),
+    'C10': dict(
+        text='Proof: Verus verifies the verbatim Multiboot2Header::load in TOTAL mode for all header words with the statement`s exact acceptance condition and error precedence, and calc_checksum for ALL magic / both architectures / ALL lengths: the result satisfies the congruence and is the unique such value; verify_checksum is equivalent to the congruence.',
+        note='Trusted: pointer-extent prelude; decode::<Multiboot2BasicHeader> relates bytes to fields (little-endian decoding checked by Kani accessors harness).',
+    ),
+    'C12': dict(
+        text='Proof: Verus verifies the verbatim multiboot2_header::Builder: 10 setters with full-frame postconditions, new(), and build() against: 8-aligned, magic 0xE85250D6, chosen architecture, length = byte length, checksum congruence, payload = byte images of exactly the supplied tags in order, terminated by an end tag (type 0, flags 0, size 8) as the final 8 bytes - for all subsets, orders (frames), architectures and contents. Kani re-checks concrete subsets with symbolic field values on compiled code (bounded).',
+        note='Assumes the contract of new_boxed (C16) and axiom_safe_ref_wf (type-system guarantee).',
+    ),
+    'C15': dict(
+        text='Proof: Verus verifies DynSizedStructure::cast ONCE, generically for every T satisfying the MaybeDynSized trait contract (layout_size = the size rustc gives a value with that metadata): on normal return same address, same provenance, size_of_val equal to the tag`s own size rounded up to 8, metadata = dst_len(header). The 11 in-repo dst_len implementations are verified against the trait contract.',
+        note='A user type "truthfully declares" its layout iff its layout_size is the Rust size for the metadata: this is the trait-level assumption (checked by Kani for the in-repo kinds).',
+    ),
+    'C18': dict(
+        text='Proof: Verus verifies the verbatim EFIMemoryMapTag::memory_areas, EFIMemoryAreaIter::{new,next,len}: normal return implies version 1, descriptor size >= 40 and % 8 == 0, map length divisible; next yields the descriptor at map offset i*d, 8-aligned, 40 bytes inside the map; len() == entries - i; for all strides, counts and lengths.',
+        note='uefi-raw MemoryDescriptor is a 40-byte stand-in in V (size/alignment only); field decoding checked by Kani.',
+    ),
+    'C19': dict(
+        text='Proof: Verus verifies ElfSectionsTag::sections (rejects entry count / entry size / string-table index reaching outside the tag, no u32 overflow), ElfSectionIter::next with a loop invariant and decreases measure (entries in order, each entry_size bytes inside the tag, only in-use types yielded), ElfSection::get (40 -> ELF32, 64 -> ELF64, else controlled panic), section_type against the documented value ranges.',
+        note='Kani cannot compile ElfSectionsTag (ICE): sections() has no compiled-code cross-check; iterator and entry decoding are checked by Kani on directly constructed iterators where available. Section names dereference an external address (excluded).',
+    ),
     'C02': dict(
         text='Proof: Verus verifies the verbatim body of BootInformation::load in TOTAL mode (no panic site may be reachable: it does not assume panics_allowed()) for all header words and all declared sizes, against the postcondition transcribed from the statement: null -> Memory(Null); size < 8 -> ShorterThanHeader; size % 8 != 0 -> MissingPadding; last 8 bytes not (type 0, size 8) -> NoEndTag; otherwise Ok with start address = pointer, size = declared size. Callees (ref_from_ptr, ref_from_slice, BytesRef::try_from, ref_from_bytes, payload_len, has_valid_end_tag) are used through their own verified contracts.',
         note='Trusted: pointer-extent prelude; the end-tag bytes are related to (type,size) through the uninterpreted decode::<TagHeader> (little-endian decoding of TagHeader is checked by Kani in C04/C03 harnesses); the caller`s unsafe promise (8-aligned header followed by the declared bytes) is the precondition.',
